@@ -99,6 +99,13 @@ pub mod stdspec {
     #[verifier::external_body]
     pub broadcast proof fn ax_slice_into_obeys<'a>()
         ensures #[trigger] <&'a [f64] as vstd::std_specs::convert::IntoSpec<Vec<f64>>>::obeys_into_spec() {}
-    pub broadcast group ax_vec_from_refl { ax_vec_into_refl, ax_vec_into_obeys, ax_i32_tryinto_refl, ax_i32_tryinto_obeys, ax_slice_into_vec, ax_slice_into_obeys }
+    // std: `impl<T, const N: usize> From<[T; N]> for Vec<T>` copies the array (used for the 3 x 3 rotation matrices)
+    #[verifier::external_body]
+    pub broadcast proof fn ax_arr9_into_vec(a: [f64; 9])
+        ensures (#[trigger] <[f64; 9] as vstd::std_specs::convert::IntoSpec<Vec<f64>>>::into_spec(a))@ == a@ {}
+    #[verifier::external_body]
+    pub broadcast proof fn ax_arr9_into_obeys()
+        ensures #[trigger] <[f64; 9] as vstd::std_specs::convert::IntoSpec<Vec<f64>>>::obeys_into_spec() {}
+    pub broadcast group ax_vec_from_refl { ax_vec_into_refl, ax_vec_into_obeys, ax_i32_tryinto_refl, ax_i32_tryinto_obeys, ax_slice_into_vec, ax_slice_into_obeys, ax_arr9_into_vec, ax_arr9_into_obeys }
     }
 }
